@@ -106,3 +106,41 @@ def check_vectorize(ctx, rule, module_names):
                 signature="integer literal returned by a vectorised function", returns=ints,
             )
     return n
+
+
+def check_masked_calls(ctx, rule, module_names):
+    """numpy's masked-assignment helpers have positional semantics that differ from `a[mask] = values`:
+    np.putmask(a, mask, values) takes values[n] for position n of `a` (values is full-size or scalar: handing it the values
+    packed by the mask misplaces them unless the masked entries form a prefix); np.place(a, mask, vals) consumes vals in
+    order (vals is packed: handing it a full-size array takes its first N entries); np.piecewise(x, ...) allocates its
+    result with x's dtype (an integer pressure grid truncates every value).  Reported per call site; expected count zero."""
+    import ast
+
+    n = 0
+    for mn in module_names:
+        m = ctx.P.module(mn)
+        for node in ast.walk(m.tree):
+            if not isinstance(node, ast.Call):
+                continue
+            fn = ast.unparse(node.func)
+            if fn not in ("np.putmask", "numpy.putmask", "np.place", "numpy.place", "np.piecewise", "numpy.piecewise"):
+                continue
+            n += 1
+            where = f"{m.relpath}:{node.lineno}"
+            short = fn.split(".")[-1]
+            if short == "piecewise":
+                x = node.args[0] if node.args else None
+                floaty = x is not None and any(k in ast.unparse(x) for k in ("float", "astype"))
+                ctx.check(floaty, rule, f"{mn}:np.piecewise at line {node.lineno}", where, "np.piecewise allocates its result with the dtype of its first argument: that argument is converted to float first", signature="piecewise dtype", argument=ast.unparse(x)[:60] if x is not None else "")
+                continue
+            if len(node.args) < 3:
+                continue
+            mask, vals = node.args[1], node.args[2]
+            mask_txt = ast.unparse(mask)
+            packed = any(isinstance(s, ast.Subscript) and ast.unparse(s.slice) == mask_txt for s in ast.walk(vals))
+            scalar = isinstance(vals, ast.Constant) or (isinstance(vals, ast.UnaryOp) and isinstance(vals.operand, ast.Constant))
+            if short == "putmask":
+                ctx.check(not packed, rule, f"{mn}:np.putmask at line {node.lineno}", where, "np.putmask is given full-size (or scalar) values: values[n] goes to position n", signature="putmask with packed values", values=ast.unparse(vals)[:80])
+            else:
+                ctx.check(packed or scalar, rule, f"{mn}:np.place at line {node.lineno}", where, "np.place is given values packed by the same mask (it consumes them in order)", signature="place with unpacked values", values=ast.unparse(vals)[:80])
+    return n
